@@ -154,3 +154,47 @@ Definition delete_all (m : fmap) (keys : list Z) : fmap := fold_left fm_del keys
 (* 6. membership-only maps (UpdateProposalOracles, validateDepositDenom, checkProposalMsgs, ...):
       the map is only indexed, never ranged *)
 Definition member_of (x : Z) (l : list Z) : bool := existsb (Z.eqb x) l.
+
+(* ------------------------------------------------------------------ *)
+(* cosmossdk.io/math LegacyDec arithmetic on values scaled by 10^18 (non-negative operands), transcribed
+   from dec.go: chopPrecisionAndRound = divide by 10^18 with banker's rounding; Mul = multiply, chop;
+   Quo = multiply by 10^36, big.Int Quo, chop; MulInt = exact.  Used to instantiate the tally model for
+   the correspondence run. *)
+Definition dec_one : Z := 10 ^ 18.
+Definition chop_round (x : Z) : Z :=
+  let q := x / dec_one in
+  let r := x mod dec_one in
+  if r =? 0 then q
+  else if r <? 5 * 10 ^ 17 then q
+  else if 5 * 10 ^ 17 <? r then q + 1
+  else if Z.even q then q else q + 1.
+Definition ldec_mul (a b : Z) : Z := chop_round (a * b).
+Definition ldec_mul_int_quo (s b t : Z) : Z := chop_round (s * b * (dec_one * dec_one) / t).
+
+(* x/gov Tally's result for the validator loop, started from the accumulators the (store-ordered) vote walk
+   left, truncated like NewTallyResultFromMap does *)
+Definition tally_counts (acc : tally) (vals : list gov_val) : Z * Z * Z * Z :=
+  let t := tally_validators ldec_mul_int_quo ldec_mul acc vals in
+  (t_yes t / dec_one, t_abstain t / dec_one, t_no t / dec_one, t_veto t / dec_one).
+
+(* ------------------------------------------------------------------ *)
+(* x/crosschain/keeper/proposal.go UpdateProposalOracles: two membership-only maps (new list, old list)
+   decide which bonded oracles are unbonded; the oracles are walked in store order. *)
+Record orc := mk_orc { o_addr : Z; o_online : bool; o_power : Z }.
+
+Definition upo (max_size : Z) (all : list orc) (old new : list Z) : option (list Z) :=
+  if max_size <? Z.of_nat (length new) then None else
+  let total := fold_left (fun a o => if o_online o then a + o_power o else a) all 0 in
+  let unb := filter (fun o => negb (member_of (o_addr o) new) && member_of (o_addr o) old) all in
+  let del := fold_left (fun a o => if o_online o then a + o_power o else a) unb 0 in
+  (* AttestationProposalOracleChangePowerThreshold (30) * total / 100 *)
+  if (0 <? del) && (30 * total / 100 <=? del) then None else Some (map o_addr unb).
+
+(* ------------------------------------------------------------------ *)
+(* x/crosschain/keeper/abci.go pruneAttestations: after an event is observed, every attestation whose event
+   nonce is <= lastObserved - MaxKeepEventSize is deleted (nonces collected, sorted, deleted one by one).
+   The store is the fmap built from the attestation nonces; the deletions are a delete_all. *)
+Definition present (keys : list Z) : fmap := rebuild (map (fun k => (k, 1)) keys).
+Definition prune (keep last : Z) (atts : list Z) : fmap :=
+  if last <=? keep then present atts
+  else delete_all (present atts) (filter (fun n => n <=? last - keep) atts).
